@@ -19,6 +19,8 @@ pub struct Down<'a> {
     pub f_opts: &'a [u8],
     pub port: Option<u8>,
     pub payload: &'a [u8],
+    /// RFU bits of the MHDR (bits 4..2) as sent; the MIC covers the MHDR as sent
+    pub mhdr_rfu: u8,
 }
 
 impl Net {
@@ -35,6 +37,9 @@ impl Net {
             f_port: d.port,
             frm: d.payload.to_vec(),
         };
+        if d.mhdr_rfu & 7 != 0 {
+            return lrv_core::refcodec::encode_data_rfu(&desc, &self.nwk, &self.app, d.mhdr_rfu).expect("legal downlink description");
+        }
         encode_data(&desc, &self.nwk, &self.app).expect("legal downlink description")
     }
 
